@@ -674,7 +674,7 @@ func main() {
 		return
 	}
 	nBig := run.N(9, 240)
-	nRand := run.N(12000, 900000)
+	nRand := run.N(50000, 900000)
 	idx := 0
 	for i := 0; i < nBig; i++ {
 		idx++
